@@ -22,20 +22,31 @@ LEVEL = "model_checking"
 RULE = ("complete enumeration (every dimension exhaustive, bound 0) of per-family finite argument domains: "
         "overload x shape {(),(0,),(1,),(2,3),(1,3,0),(2,1,3)} x dtype x operand kind (tensor of every shape / python "
         "scalar of every kind) x alpha x rounding_mode x dim (every axis, negative, lists, None) x keepdim x optional "
-        "arguments omitted/given, bound through the ATen schema; thorough adds every exported module f(x), g(f(x),y) over "
-        "an op subset.  A leaf is one (overload, argument tuple); leaves are batched per overload.  distinct_nontrivial = "
+        "arguments omitted/given, bound through the ATen schema; pool/conv/reflection+replication pad overloads over "
+        "their own grids (input shape batched/unbatched/empty batch x kernel x stride x padding x dilation x ceil_mode x "
+        "count_include_pad x divisor_override x groups x bias x transposed x output_padding, list arguments also in "
+        "their one-element form; quick = a prefix of every thorough menu); thorough adds every exported module f(x), "
+        "g(f(x),y) over an op subset and every exported nn.functional module of the pad/pool/conv grids in c08_e2e_nn "
+        "(adaptive_avg_pool, conv_transpose, max/avg_pool2d, conv2d incl. string paddings).  A leaf is one (overload, argument tuple); leaves are batched per overload.  distinct_nontrivial = "
         "distinct (overload, argument-feature tuple) leaves that torch eager accepted and that were traced, checked, run "
         "and compared (torch-refused / undeclared-dtype / no-runtime leaves are counted as skips)")
 ASSUMPTIONS = [
     "torch eager (torch 2.14 CPU) is the reference semantics of each ATen overload",
     "onnxruntime 1.30 CPU (optimisations disabled) implements ONNX semantics; onnx.reference only when ORT has no kernel",
     "torch.onnx._internal.exporter._building.OpRecorder is how the exporter invokes torchlib functions",
+    "pool/conv/pad families: a value/shape disagreement shown only by onnx.reference (ORT has no kernel for the dtype) is "
+    "not attributed to torchlib when the float32 twin of the case traces to the node-for-node identical graph and ORT "
+    "agrees with torch on it (counted as skipped); ConvTranspose graphs with output_padding >= stride that ORT and "
+    "onnx.reference both refuse although ONNX allows output_padding < dilation are counted as skipped",
     "tensor dtypes are restricted to those the torchlib function declares for the parameter (mixed-dtype operands and "
     "promoting python scalars are rewritten by the exporter's type-promotion pass before torchlib sees them; they are "
     "covered only end to end)",
 ]
 
 MAX_ITEM = 12000
+# pool/conv/pad overloads are kept in one batch each (most of their tuples are refused by torch in microseconds;
+# one batch per overload gives one argument class per cause instead of one per dtype)
+MAX_ITEM_BY_FAMILY = {"pool": 60000, "conv": 60000, "padnd": 60000}
 
 
 def plan(tier, seed):
@@ -48,19 +59,32 @@ def plan(tier, seed):
     # items carry no cases: a worker re-enumerates the overload's cases with the same driver (small replays)
     for (fam, op), per_dtype in by_op.items():
         n = sum(per_dtype.values())
-        if n <= MAX_ITEM:
+        if n <= MAX_ITEM_BY_FAMILY.get(fam, MAX_ITEM):
             items.append({"kind": "op", "tier": tier, "fam": fam, "op": op, "part": "", "ncases": n})
         else:
             # split by the dtype feature; the split feature then stays exact in finding classes
             for k, m in per_dtype.items():
                 items.append({"kind": "op", "tier": tier, "fam": fam, "op": op, "part": k, "ncases": m})
     e_stats = None
-    if tier == "thorough" and not os.environ.get("C08_FAMILIES"):
+    only = [x for x in os.environ.get("C08_FAMILIES", "").split(",") if x]  # debugging aid
+    if tier == "thorough" and (not only or "e2e" in only):
         from vf.props import c08_e2e
         e_items, e_stats = c08_e2e.plan()
         for it in e_items:
             it["ncases"] = len(it["cases"]) * 150  # an export costs ~150 traces
         items.extend(e_items)
+    if tier == "thorough" and (not only or "e2e-nn" in only):
+        from vf.props import c08_e2e_nn
+        n_items, n_stats = c08_e2e_nn.plan()
+        for it in n_items:
+            it["tier"] = tier
+            it["ncases"] = it["n"] * 150
+        items.extend(n_items)
+        if e_stats is None:
+            e_stats = {"states": 0, "transitions": 0, "leaves": 0}
+        for k in ("states", "transitions", "leaves"):
+            e_stats[k] += n_stats[k]
+        e_stats["dimensions_nn"] = n_stats["dimensions"]
     # balance: deal big items first so that round-robin shards get similar totals
     items.sort(key=lambda it: -it["ncases"])
     d = st.as_dict()
@@ -93,6 +117,9 @@ def execute(item):
     if item["kind"] == "e2e":
         from vf.props import c08_e2e
         return c08_e2e.execute(item)
+    if item["kind"] == "e2e-nn":
+        from vf.props import c08_e2e_nn
+        return c08_e2e_nn.execute(item)
     from vf.props import c08_run
     return c08_run.execute_ops(item)
 
